@@ -927,7 +927,7 @@ def loss_with_backlog(res):
         and shutdown() waits in Queues.join for ever: exactly the state open finding F1 (filed under C12, the
         property about close() returning) describes - "a non-empty read queue and no live consumer".  The harness
         evaluates F1's match predicate on what it observed (shutdown suspended in Queues.join, read queue non-empty,
-        no consumer task alive, `connected` cleared) and tags the failure finding="F1" only then; a shutdown() that
+        no consumer task alive, `connected` cleared) and tags the failure finding="F12" (known_findings.json, property C09: the same root cause as F1) only then; a shutdown() that
         hangs in any other state is an untagged failure of C09's "a later shutdown can complete"."""
     import connrun
 
@@ -991,7 +991,7 @@ def loss_with_backlog(res):
         f1 = "shutdown" in chain and "join" in chain and queued > 0 and alive == 0 and not connected
         res.count("loss-with-backlog:" + ("F1:stuck" if f1 else "stuck-other"))
         if f1:
-            res.fail("spec", dict(history=hist), "a later shutdown can complete", obs, "a later shutdown can complete", finding="F1")
+            res.fail("spec", dict(history=hist), "a later shutdown can complete", obs, "a later shutdown can complete", finding="F12")
         else:
             res.fail("spec", dict(history=hist), "a later shutdown can complete", obs,
                      "a later shutdown can complete (shutdown() blocked, not the state of known finding F1)")
